@@ -26,6 +26,8 @@ HARNESS = os.path.join(BIN, "harness")
 DRIVER = os.path.join(BUILD, "ocaml", "driver")
 EVID = os.path.join(ROOT, "evidence")
 REPLAYS = os.path.join(ROOT, "replays")
+# the tree under test; /repo unless a builder works against a scratch worktree
+REPO = os.environ.get("VERIF_REPO", "/repo")
 
 sys.path.insert(0, os.path.join(ROOT, "lib"))
 
@@ -81,8 +83,16 @@ class Lock:
 def build_harness():
     os.makedirs(BIN, exist_ok=True)
     hdir = os.path.join(ROOT, "harness")
-    shutil.copyfile("/repo/go.sum", os.path.join(hdir, "go.sum"))
-    p = run(["go", "build", "-tags", "verif", "-o", HARNESS, "./cmd/harness"], cwd=hdir, env=GOENV, timeout=900)
+    shutil.copyfile(os.path.join(REPO, "go.sum"), os.path.join(hdir, "go.sum"))
+    cmd = ["go", "build", "-tags", "verif", "-o", HARNESS]
+    if REPO != "/repo":
+        # an alternative go.mod whose replace directive points at the scratch tree
+        alt = os.path.join(BUILD, "alt.mod")
+        os.makedirs(BUILD, exist_ok=True)
+        open(alt, "w").write(open(os.path.join(hdir, "go.mod")).read().replace("=> /repo", "=> " + REPO))
+        shutil.copyfile(os.path.join(REPO, "go.sum"), os.path.join(BUILD, "alt.sum"))
+        cmd += ["-modfile", alt]
+    p = run(cmd + ["./cmd/harness"], cwd=hdir, env=GOENV, timeout=900)
     if p.returncode != 0:
         raise ProofBroken("harness-build", "the Go harness does not build against /repo's working tree:\n" + p.stdout[-4000:])
 
